@@ -140,8 +140,24 @@ func (f *FuncFacts) yields(d *ssa.BasicBlock, k int, ph *ssa.Phi, want bool) boo
 // block of a predicate helper).
 func (f *FuncFacts) leafContext(b *ssa.BasicBlock, targets []yieldTarget, guard bool) []string {
 	rejEdge, _ := f.rejEdges()
+	// a boolean computed in place: only the branches of its own evaluation count, not the
+	// conditions under which the whole expression is reached (those belong to the user's context)
+	outer := map[[2]int]bool{}
+	for _, t := range targets {
+		if t.ph != nil {
+			if id := t.ph.Block().Idom(); id != nil {
+				for _, c := range f.context(id, rejEdge) {
+					outer[[2]int{c.blk.Index, c.succ}] = true
+				}
+			}
+			break // the outermost phi of the expression
+		}
+	}
 	var atoms []string
 	for _, c := range f.context(b, rejEdge) {
+		if outer[[2]int{c.blk.Index, c.succ}] {
+			continue
+		}
 		drop := false
 		if guard {
 			for _, t := range targets {
